@@ -17,7 +17,7 @@ for id in $ids; do
   python3 - "$id" "$suf" "$base" <<'PY'
 import json,sys
 pid,suf,base=sys.argv[1:]
-json.dump({'property':pid,'breaks':pid,'round':{'b':2,'c':3,'d':4,'e':5,'f':6,'g':7,'h':8}.get(suf,0),'needs_to_manifest':'see README.md',
+json.dump({'property':pid,'breaks':pid,'round':{'b':2,'c':3,'d':4,'e':5,'f':6,'g':7,'h':8,'i':9,'j':10}.get(suf,0),'needs_to_manifest':'see README.md',
            'confirmed':'harness/confirm_seed.sh %s %s in a scratch worktree: demo alone passes, patch alone 93 tests pass, patch+demo fails'%(pid,base),
            'ran':'harness/seedrun.sh /verif/seeded/%s%s/patch.diff %s'%(pid,suf,pid),'detection':'TBD'},open('/verif/seeded/%s%s/meta.json'%(pid,suf),'w'),indent=1)
 PY
